@@ -211,7 +211,7 @@ func main() {
 	desc := map[[2]int]interface{}{}
 	sizes := []int{1, 2, 3, 4, 5, 6, 7, 8, 9, 10}
 	if !run.Thorough() {
-		sizes = []int{1, 3, 4, 7, 10}
+		sizes = []int{1, 2, 3, 4, 5, 6, 7, 8, 9, 10} // every size: the rounding of 2n/3 differs per residue
 	}
 	for _, n := range sizes {
 		f := build(n, run.Thorough())
